@@ -101,6 +101,27 @@ pub trait Inst {
     fn resp_scalars(p: &Self::P, resp: &[u8]) -> Vec<usize>;
     /// sizes to use (where the protocol has a size parameter)
     fn sizes() -> Vec<usize> { vec![1] }
+    /// every leaf component of the statement that `perturb` can alter (indices
+    /// normalised to `[]`); each must be observed to influence the transcript
+    fn subs() -> Vec<&'static str> { vec![] }
+}
+
+/// `cmms[3]` -> `cmms[]`
+fn norm_sub(s: &str) -> String {
+    let mut out = String::new();
+    let mut skip = false;
+    for c in s.chars() {
+        if c == '[' {
+            out.push('[');
+            skip = true;
+        } else if c == ']' {
+            out.push(']');
+            skip = false;
+        } else if !skip {
+            out.push(c);
+        }
+    }
+    out
 }
 
 // ---------------------------------------------------------------- dlog
@@ -109,6 +130,8 @@ impl Inst for DlogI {
     type P = Dlog<G1>;
 
     fn name() -> String { "dlog".into() }
+
+    fn subs() -> Vec<&'static str> { vec!["public", "coeff"] }
 
     fn fields() -> Vec<&'static str> { vec!["public", "coeff"] }
 
@@ -151,6 +174,8 @@ impl Inst for ComEqI {
 
     fn name() -> String { "com_eq".into() }
 
+    fn subs() -> Vec<&'static str> { vec!["commitment", "y", "cmm_key.g", "cmm_key.h", "g"] }
+
     fn fields() -> Vec<&'static str> { vec!["commitment", "y", "cmm_key", "g"] }
 
     fn gen(r: &mut CRng, _s: usize) -> (Self::P, ComEqSecret<G1>) {
@@ -175,6 +200,8 @@ impl Inst for ComEqDiffI {
     type P = ComEqDiffGroups<G1, G2>;
 
     fn name() -> String { "com_eq_different_groups".into() }
+
+    fn subs() -> Vec<&'static str> { vec!["commitment_1", "commitment_2", "cmm_key_1.g", "cmm_key_1.h", "cmm_key_2.g", "cmm_key_2.h"] }
 
     fn fields() -> Vec<&'static str> { vec!["commitment_1", "commitment_2", "cmm_key_1", "cmm_key_2"] }
 
@@ -213,6 +240,8 @@ impl Inst for ComEncEqI {
     type P = ComEncEq<G1>;
 
     fn name() -> String { "com_enc_eq".into() }
+
+    fn subs() -> Vec<&'static str> { vec!["cipher.0", "cipher.1", "commitment", "pub_key.generator", "pub_key.key", "cmm_key.g", "cmm_key.h", "encryption_in_exponent_generator"] }
 
     fn fields() -> Vec<&'static str> { vec!["cipher", "commitment", "pub_key", "cmm_key", "encryption_in_exponent_generator"] }
 
@@ -271,6 +300,8 @@ impl Inst for ComMultI {
 
     fn name() -> String { "com_mult".into() }
 
+    fn subs() -> Vec<&'static str> { vec!["cmms[]", "cmm_key.g", "cmm_key.h"] }
+
     fn fields() -> Vec<&'static str> { vec!["cmms", "cmm_key"] }
 
     fn gen(r: &mut CRng, _s: usize) -> (Self::P, ComMultSecret<G1>) {
@@ -307,6 +338,8 @@ impl Inst for AggDlogI {
     type P = AggregateDlog<G1>;
 
     fn name() -> String { "aggregate_dlog".into() }
+
+    fn subs() -> Vec<&'static str> { vec!["public", "coeff[]"] }
 
     fn fields() -> Vec<&'static str> { vec!["public", "coeff"] }
 
@@ -347,6 +380,8 @@ impl Inst for VecComEqI {
     type P = VecComEq<G1>;
 
     fn name() -> String { "vcom_eq".into() }
+
+    fn subs() -> Vec<&'static str> { vec!["comm", "comms[]", "gis[]", "h", "g_bar", "h_bar"] }
 
     fn fields() -> Vec<&'static str> { vec!["comm", "comms", "gis", "h", "g_bar", "h_bar"] }
 
@@ -473,6 +508,8 @@ impl Inst for ComEqSigI {
 
     fn name() -> String { "com_eq_sig".into() }
 
+    fn subs() -> Vec<&'static str> { vec!["blinded_sig.0", "blinded_sig.1", "commitments[]", "ps_pub_key.g", "ps_pub_key.g_tilda", "ps_pub_key.ys[]", "ps_pub_key.y_tildas[]", "ps_pub_key.x_tilda", "comm_key.g", "comm_key.h"] }
+
     fn fields() -> Vec<&'static str> { vec!["blinded_sig", "commitments", "ps_pub_key", "comm_key"] }
 
     fn sizes() -> Vec<usize> { vec![0, 1, 2, 17, 40] }
@@ -532,6 +569,8 @@ impl Inst for PsSigKnownI {
     type P = PsSigKnown<P, G1>;
 
     fn name() -> String { "ps_sig_known".into() }
+
+    fn subs() -> Vec<&'static str> { vec!["blinded_sig.0", "blinded_sig.1", "msgs[].commitment", "msgs[].public", "ps_pub_key.g", "ps_pub_key.g_tilda", "ps_pub_key.ys[]", "ps_pub_key.y_tildas[]", "ps_pub_key.x_tilda", "cmm_key.g", "cmm_key.h"] }
 
     fn fields() -> Vec<&'static str> { vec!["blinded_sig", "msgs", "ps_pub_key", "cmm_key"] }
 
@@ -635,6 +674,8 @@ impl Inst for EncTransI {
 
     fn name() -> String { "enc_trans".into() }
 
+    fn subs() -> Vec<&'static str> { vec!["dlog.public", "dlog.coeff", "elg_dec.public", "elg_dec.coeff0", "elg_dec.coeff1", "encexp1[].commitment", "encexp1[].y", "encexp1[].cmm_key.g", "encexp1[].cmm_key.h", "encexp1[].g", "encexp2[].commitment", "encexp2[].y", "encexp2[].cmm_key.g", "encexp2[].cmm_key.h", "encexp2[].g"] }
+
     fn fields() -> Vec<&'static str> { vec!["dlog", "elg_dec", "encexp1", "encexp2"] }
 
     fn gen(r: &mut CRng, _n: usize) -> (Self::P, EncTransSecret<G1>) {
@@ -698,11 +739,11 @@ impl Inst for EncTransI {
                 }
                 1 => {
                     bump(&mut p.elg_dec.coeff[0]);
-                    "elg_dec.coeff[0]".into()
+                    "elg_dec.coeff0".into()
                 }
                 _ => {
                     bump(&mut p.elg_dec.coeff[1]);
-                    "elg_dec.coeff[1]".into()
+                    "elg_dec.coeff1".into()
                 }
             },
             _ => {
@@ -958,7 +999,7 @@ pub fn drive<I: Inst>(ctx: &ChildCtx, sh: &mut Shard, idx: u64, r: &mut CRng) {
     // ---- layer (i)+(ii)+(iii): every field of the statement
     for f in I::fields() {
         let mut applied = false;
-        for _ in 0..2 {
+        for _ in 0..3 {
             let mut s2 = I::copy(&stmt);
             let sub = match I::perturb(&mut s2, f, r) {
                 Some(s) => s,
@@ -970,6 +1011,7 @@ pub fn drive<I: Inst>(ctx: &ChildCtx, sh: &mut Shard, idx: u64, r: &mut CRng) {
             let (streams, cl, cv) = public_streams(&stmt, &s2, &dom);
             sh.evaluations += 1;
             sh.hit(&format!("transcript.{}.{}", name, f));
+            sh.hit(&format!("sub.{}.{}", name, norm_sub(&sub)));
             if !(streams && cl && cv) {
                 violate(
                     sh,
@@ -1613,6 +1655,9 @@ fn inst_floors<I: Inst>(out: &mut Vec<(String, u64)>, s: u64, per_slot: u64) {
         for z in sizes {
             out.push((format!("size.{}.{}", n, z), s));
         }
+    }
+    for sub in I::subs() {
+        out.push((format!("sub.{}.{}", n, sub), 3 * s));
     }
 }
 
